@@ -1087,14 +1087,21 @@ class BasePort(logging_utils.LoggableMixin, metaclass=abc.ABCMeta):
         return self._pending_save
 
     async def cleanup(self) -> None:
+        # A task that has been cancelled before it got the chance to start raises CancelledError when awaited
         if self._write_value_task:
             self._write_value_task.cancel()
-            await self._write_value_task
+            try:
+                await self._write_value_task
+            except asyncio.CancelledError:
+                pass
             self._write_value_task = None
 
         if self._eval_task:
             self._eval_task.cancel()
-            await self._eval_task
+            try:
+                await self._eval_task
+            except asyncio.CancelledError:
+                pass
             self._eval_task = None
 
     def is_loaded(self) -> bool:
